@@ -295,6 +295,16 @@ def r13_5(ctx, fx):
     # the future pushed in on_outbound_substream yields tuples whose request id is the captured one
     keys = fx.find(r"^protocol::request_response::RequestResponseProtocol::on_outbound_substream::\{closure#0\}::\{closure#\d+\}$")
     bodies = [fx.fn(k) for k in keys if fx.fn(k).is_coroutine]
+    if not bodies:
+        # the async block moved into an `async fn` of its own (a function the baseline does not have) that on_outbound_substream calls
+        # to make the future it files
+        outer = fx.fn("protocol::request_response::RequestResponseProtocol::on_outbound_substream::{closure#0}")
+        from facts import norm
+        made = {norm(s_["rv"].get("closure") or "") for n_, s_ in (outer.assigns() if outer is not None else []) if s_["rv"]["r"] == "agg" and s_["rv"].get("adt") == "{coroutine}"}
+        made |= {(c.name or "") + "::{closure#0}" for c in (outer.calls() if outer is not None else [])}
+        for k in sorted(getattr(fx, "new_fns", ())):
+            if norm(k) in made and fx.fn(k) is not None and fx.fn(k).is_coroutine:
+                bodies.append(fx.fn(k))
     ctx.anchor("R13.5", "outbound request future body", len(bodies), 1, cfg=fx.cfg)
     for fn in bodies:
         ctx.bodies.add((fx.cfg, fn.key))
